@@ -173,7 +173,10 @@ def random_fields(rng, nf=None, profile=None, repeats=False):
 
 def random_spec(rng, ndims=None, nlev=None, nf=None, exact=True, data="tags", layout=None,
                 profile=None, repeats=False, B=None, nblk=None, origin=None, aniso=None,
-                refine_p=0.4, single0=None, header_style=None):
+                refine_p=0.4, single0=None, header_style=None, scale=None):
+    """scale: None | "tiny" (cells of 1e-4 .. 1e-6: domain volumes below numpy's default absolute tolerance) |
+    "far" (domain thousands of units from the coordinate origin, cells of a few thousandths: |x|/dx > 1e5) |
+    "centred" (the coordinate origin lies on a box face in the middle of the domain)"""
     ndims = ndims or rng.choice([2, 3])
     nlev = nlev or rng.choice([1, 2, 2, 3])
     grid0, levels, B = random_mesh(rng, ndims, nlev, B=B, nblk=nblk, refine_p=refine_p, single0=single0)
@@ -190,6 +193,18 @@ def random_spec(rng, ndims=None, nlev=None, nf=None, exact=True, data="tags", la
     if origin is None:
         origin = rng.random() < 0.6
     geo_low = [rng.choice(los) if origin else 0.0 for _ in range(ndims)]
+    if scale == "tiny":
+        tiny = [2.0 ** -14, 2.0 ** -17] if exact else [1e-4, 3e-6, 2.5e-5]
+        d = rng.choice(tiny)
+        dx0 = [rng.choice(tiny) if aniso else d for _ in range(ndims)]
+        geo_low = [rng.choice([0.0, dx0[k] * 3, -dx0[k] * 5]) if origin else 0.0 for k in range(ndims)]
+    elif scale == "far":
+        small = [2.0 ** -8, 2.0 ** -9] if exact else [0.004, 0.0025, 0.003]
+        d = rng.choice(small)
+        dx0 = [rng.choice(small) if aniso else d for _ in range(ndims)]
+        geo_low = [rng.choice([1250.0, -830.5, 2400.25, 65536.0] if exact else [1250.1, -830.3, 2400.7, 1e5 + 0.1]) for _ in range(ndims)]
+    elif scale == "centred":
+        geo_low = [-(grid0[k] // 2) * dx0[k] for k in range(ndims)]
     spec = {
         "ndims": ndims,
         "fields": random_fields(rng, nf, profile, repeats),
@@ -326,7 +341,12 @@ def header_text(spec, nlev=None):
     L.append(" ".join(_f(x) for x in geo_high) + sp)
     nfac = nlev - 1 + (1 if style == "extra_ratio" else 0)
     L.append(" ".join("2" for _ in range(nfac)) + sp)
-    L.append(" ".join(f"(({z}) ({','.join(str(g - 1) for g in grid[lv])}) ({z}))" for lv in range(nlev)) + sp)
+    sh = int(spec.get("idx_shift", 0))          # index of the first cell of the domain at level 0 (negative: index space below zero)
+    if sh:
+        L.append(" ".join(f"(({','.join(str(sh * 2 ** lv) for _ in range(nd))}) ({','.join(str(g - 1 + sh * 2 ** lv) for g in grid[lv])}) ({z}))"
+                          for lv in range(nlev)) + sp)
+    else:
+        L.append(" ".join(f"(({z}) ({','.join(str(g - 1) for g in grid[lv])}) ({z}))" for lv in range(nlev)) + sp)
     L.append(" ".join(str(spec.get("step", 7)) for _ in range(nlev)) + sp)
     for lv in range(nlev):
         L.append(" ".join(_f(x) for x in dx[lv]) + sp)
@@ -351,7 +371,9 @@ def materialize(spec, path, nlev=None):
         h.write(header_text(spec, nlev))
     z = ",".join("0" for _ in range(nd))
     truth = {}
+    sh0 = int(spec.get("idx_shift", 0))
     for lv in range(nlev):
+        sh = sh0 * 2 ** lv
         ldir = os.path.join(path, f"Level_{lv}")
         os.makedirs(ldir)
         boxes = spec["levels"][lv]
@@ -370,7 +392,7 @@ def materialize(spec, path, nlev=None):
                     if n_in_file and spec.get("gap"):
                         bf.seek(int(spec["gap"]), 1)      # sparse hole: byte offsets beyond 2**31 at no cost on disk
                     offsets[bid] = bf.tell(); fnames[bid] = fname
-                    bf.write(fab_header(lo, hi, nf))
+                    bf.write(fab_header([x + sh for x in lo], [x + sh for x in hi], nf))
                     arrs = [np.asarray(box_data(spec, lv, bid, k), dtype="float64") for k in range(nf)]
                     for a in arrs:
                         bf.write(a.flatten(order="F").astype("<f8").tobytes())
@@ -380,7 +402,7 @@ def materialize(spec, path, nlev=None):
         with open(os.path.join(ldir, "Cell_H"), "w") as ch:
             ch.write(f"1\n1\n{nf}\n0\n({len(boxes)} 0\n")
             for lo, hi in boxes:
-                ch.write(f"(({','.join(map(str, lo))}) ({','.join(map(str, hi))}) ({z}))\n")
+                ch.write(f"(({','.join(str(x + sh) for x in lo)}) ({','.join(str(x + sh) for x in hi)}) ({z}))\n")
             ch.write(f")\n{len(boxes)}\n")
             for bid in range(len(boxes)):
                 ch.write(f"FabOnDisk: {fnames[bid]} {offsets[bid]}\n")
